@@ -35,8 +35,9 @@ Proof. vm_compute. reflexivity. Qed.
 Example C01_imm_class_cell : model_bytes 16 (SMnem "MOV" [ident "AX"; num 32768])%string = Some [184; 0; 128]
   /\ check_c01 (16, SMnem "MOV" [ident "AX"; num 32768], [184; 0; 128])%string = 0.
 Proof. split; vm_compute; reflexivity. Qed.
-(* outside the domain, on the faithful model: MOV AX,DS encodes BX *)
-Theorem C01_mov_r16_sreg_refuted : model_bytes 16 (SMnem "MOV" [ident "AX"; ident "DS"])%string = Some [140; 219]
-  /\ check_c01 (16, SMnem "MOV" [ident "AX"; ident "DS"], [140; 219])%string <> 0.
-Proof. split; vm_compute; congruence. Qed.
-Print Assumptions C01_mov_r16_sreg_refuted.
+(* MOV r16,Sreg / Sreg,r16 for every pair (MOV AX,DS used to encode BX: fixed by 554c083 in /repo) *)
+Theorem C01_sreg : forall c, In c sweep_sreg -> ok01 c = true.
+Proof. apply forallb_forall. exact sweep_sreg_ok. Qed.
+Print Assumptions C01_sreg.
+Example C01_mov_ax_ds : model_bytes 16 (SMnem "MOV" [ident "AX"; ident "DS"])%string = Some [140; 216].
+Proof. vm_compute. reflexivity. Qed.
